@@ -31,6 +31,7 @@ type c03Case struct {
 	Syms      []int  `json:"syms,omitempty"`
 	UserShape string `json:"user_shape,omitempty"`
 	RealClock bool   `json:"real_clock,omitempty"`
+	Dirty     string `json:"dirty,omitempty"` // failed-writes: other replies were served on failing connections before (dirtyWrites)
 	Tick      string `json:"tick,omitempty"` // the clock advances by this much with every reading (1us | 1ms | 1s | 7m)
 	Zone      string `json:"zone,omitempty"` // local zone of the process clock for this case: "" +05:45 | utc | -08:00 | +14:00 | -00:01
 	Jump      string `json:"jump,omitempty"` // history: an earlier callback, then the clock jumps by this much (Go duration), then the judged callback
@@ -72,7 +73,7 @@ var c03EarlierFaults = []string{"GetResponseSigningKey/" + world.FaultError, "Ge
 	"GetEntityIDByAppID/" + world.FaultError, "AuthRequestByID/" + world.FaultError, "GetEntityByID/" + world.FaultError}
 
 func (c c03Case) params() cbP {
-	p := cbP{Binding: c.Binding, IssuerCfg: c.IssuerCfg, Host: c.Host, TimeFmt: c.TimeFmt, MetaEp: c.MetaEp, SigAlg: c.SigAlg}
+	p := cbP{Binding: c.Binding, IssuerCfg: c.IssuerCfg, Host: c.Host, TimeFmt: c.TimeFmt, MetaEp: c.MetaEp, SigAlg: c.SigAlg, Dirty: c.Dirty}
 	c03UserShapes[c.UserShape](&p)
 	for i, f := range c.Fields {
 		c04Apply(&p, f, sXML[c.Syms[i]].Val)
@@ -96,6 +97,7 @@ func (c c03Case) labels() []string {
 	add("timefmt", c.TimeFmt)
 	add("metadata-endpoint", c.MetaEp)
 	add("user", c.UserShape)
+	add("after", c.Dirty)
 	add("earlier-callback-for", c.Earlier)
 	add("earlier-callback-hits-storage-failure", c.EarlierFault)
 	add("env", c.Env)
@@ -408,6 +410,17 @@ func runC03(ctx Ctx) int {
 					}
 				}
 			}
+		}
+		// after replies on failing connections (every configuration x user shape, both stored consumer URL forms)
+		for _, cfg := range configs {
+			for _, us := range shapes {
+				c := cfg
+				c.Binding, c.UserShape, c.Dirty = b, us, "failed-writes"
+				cases = append(cases, c)
+			}
+			c := cfg
+			c.Binding, c.Dirty, c.ACSEmpty = b, "failed-writes", true
+			cases = append(cases, c)
 		}
 		// real clock pass
 		cases = append(cases, c03Case{Binding: b, RealClock: true})
